@@ -23,10 +23,12 @@
 package main
 
 import (
+	"bytes"
 	"encoding/hex"
 	"encoding/json"
 	"fmt"
 	"os"
+	"regexp"
 	"runtime"
 	"sort"
 	"strconv"
@@ -319,7 +321,7 @@ func main() {
 	inKey, invKey := mon.KeyIn, mon.KeyInvalid
 
 	var tLoop, tAgg, tBad time.Duration
-	var nLines, nValid, nRejected, nBadChecked, nDocSure, nDisagree, nSentinel int
+	var nLines, nValid, nRejected, nBadChecked, nDocSure, nDisagree, nSentinel, nBlacklisted int
 	classCount := map[string]int{}
 	disagree := map[string]int{}
 	var disagreeSamples []map[string]interface{}
@@ -351,6 +353,18 @@ func main() {
 		}
 		t.AddAggregator(agg)
 		aggKey := mon.KeyAggIn(agg.Key)
+		// every other table also carries a blacklist entry (about one generated name in eight matches it): a
+		// blacklist only ever applies to lines that passed validation, a rejected line that happens to match it
+		// is still counted invalid and reported
+		var black *regexp.Regexp
+		if ci%2 == 1 {
+			black = regexp.MustCompile(`z\.[a-f]`)
+			bm, err := matcher.New("", "", "", "", `z\.[a-f]`, "")
+			if err != nil {
+				panic(err)
+			}
+			t.AddBlacklist(&bm)
+		}
 
 		lastRejected := map[string]string{} // bad-metrics key -> text of the last rejected line (table lifetime)
 		total := perCombo * cb.Share / 4
@@ -375,9 +389,13 @@ func main() {
 				libValid := libErr == nil
 				doc := oracle.C02DocValidate(append([]byte(nil), line...), cb.Legacy, cb.M20)
 
-				in0, inv0, cap0 := mon.Counter(inKey), mon.Counter(invKey), capr.Len()
+				in0, inv0, bl0, cap0 := mon.Counter(inKey), mon.Counter(invKey), mon.Counter(mon.KeyBlacklist), capr.Len()
 				t.Dispatch(append([]byte(nil), line...))
-				dIn, dInv, fwd := mon.Counter(inKey)-in0, mon.Counter(invKey)-inv0, capr.Len()-cap0
+				dIn, dInv, dBl, fwd := mon.Counter(inKey)-in0, mon.Counter(invKey)-inv0, mon.Counter(mon.KeyBlacklist)-bl0, capr.Len()-cap0
+				blacklisted := false
+				if f := bytes.Fields(line); black != nil && libValid && len(f) > 0 && black.Match(f[0]) {
+					blacklisted = true
+				}
 
 				w := func(note string) witness {
 					we := ""
@@ -390,7 +408,18 @@ func main() {
 				if dIn != 1 {
 					res.Violate("in-count", fmt.Sprintf("levels %s: one line dispatched, direction=in moved by %d", cb, dIn), w(""))
 				}
-				if libValid {
+				if blacklisted {
+					nValid++
+					nBlacklisted++
+					if fwd != 0 || dInv != 0 || dBl != 1 {
+						res.Violate("blacklisted-valid-line", fmt.Sprintf("levels %s: valid line %q matches the blacklist entry regex z\\.[a-f]: expected not forwarded, invalid +0, blacklist +1; observed forwarded %d, invalid %+d, blacklist %+d", cb, line, fwd, dInv, dBl), w("blacklist regex z\\.[a-f]"))
+					}
+				} else if dBl != 0 {
+					res.Violate("blacklist-counted", fmt.Sprintf("levels %s: line %q (valid=%v) is not a valid line matching the blacklist, yet direction=blacklist moved by %d (invalid %+d)", cb, line, libValid, dBl, dInv), w(""))
+				}
+				if blacklisted {
+					// nothing else to expect of it
+				} else if libValid {
 					nValid++
 					validInBatch++
 					if fwd == 0 {
@@ -426,7 +455,9 @@ func main() {
 				observedForwarded := fwd > 0
 				if doc.Confident {
 					nDocSure++
-					if doc.Valid && !observedForwarded {
+					if blacklisted {
+						// validity is not observable through forwarding for these
+					} else if doc.Valid && !observedForwarded {
 						res.Violate("doc:"+doc.Class+":not-forwarded", fmt.Sprintf("levels %s: docs/validation.md makes %q valid (%s) but it was not forwarded", cb, line, doc.Class), w("carbon20 says: "+fmt.Sprint(libErr)))
 					} else if !doc.Valid && observedForwarded {
 						res.Violate("doc:"+doc.Class+":forwarded", fmt.Sprintf("levels %s: docs/validation.md makes %q invalid (%s) but it was forwarded", cb, line, doc.Class), w(""))
@@ -529,6 +560,7 @@ func main() {
 	res.Count("lines_dispatched", nLines)
 	res.Count("lines_valid", nValid)
 	res.Count("lines_rejected", nRejected)
+	res.Count("valid_lines_blacklisted", nBlacklisted)
 	res.Count("bad_report_names_checked", nBadChecked)
 	res.Count("doc_oracle_confident_verdicts", nDocSure)
 	res.Count("oracle_disagreements_informational", nDisagree)
